@@ -7,6 +7,8 @@ pub mod lex;
 pub mod log;
 pub mod mainx;
 pub mod par;
+pub mod prog;
+pub mod progmain;
 pub mod pv;
 pub mod runx;
 pub mod spec;
